@@ -93,6 +93,9 @@ let sstmt_of = function
   | L [A "swap"; x; p; y; q] -> SSwap (natof x, path_of p, natof y, path_of q)
   | L [A "opmod"; x; p; f; A wrap; y; m] -> SOpMod (natof x, path_of p, bop_of f, (wrap = "1"), natof y, lop_of m)
   | L [A "opdef"; x; p; d; f; e] -> SOpDef (natof x, path_of p, val_of d, bop_of f, expr_of e)
+  | L [A "everyop"; x; p; f; e] -> SEveryOp (natof x, path_of p, bop_of f, expr_of e)
+  | L [A "andop"; L ts; f; e] ->
+    SAndOp (List.map (function L [x; p] -> (natof x, path_of p) | _ -> bad "target") ts, bop_of f, expr_of e)
   | _ -> bad "sstmt"
 
 let stmt_of = function
